@@ -19,6 +19,8 @@ STRINGS.insert(2, "{[][<]CC[>|0 0 7 0 0 3|], [<]CO[>|2 0 0 0 1 0|]; [<]F, [>][H]
 # listed transitions between two different repeat units, both entries of every list reachable: the molecule depends on every listed pick
 # (a pick that does not come from the supplied generator shows at once)
 STRINGS.insert(2, "[H]{[>] [<]CC[>|1 0 3 0|], [<]C(F)C[>|3 0 1 0|] [<]}|gauss(300, 20)|O")
+# a system: the component of a single-molecule generation, and the whole ensemble, are functions of the supplied generator too
+STRINGS.insert(3, "SYS:CCCO.|30%|CC{[$][$]CC[$][$]}|gauss(60, 10)|CO.|45%|c1ccccc1.|250|")
 
 
 def choose_seeds(g, text):
@@ -43,7 +45,7 @@ def choose_seeds(g, text):
 def run(tier):
     g = common.import_repo()
     v = Verdict("C10", tier)
-    strings = STRINGS if tier == "thorough" else STRINGS[:8]
+    strings = STRINGS if tier == "thorough" else STRINGS[:9]
     # seeds are chosen with a RecordingRNG, but the replay uses numpy's default_rng: map through the drawn value
     seedmap = []
     for s in strings:
@@ -84,6 +86,8 @@ def run(tier):
 
 
 def _seeds_default_rng(g, text):
+    if text.startswith("SYS:"):
+        return [3, 11]
     X.Tap.install(g)
     m = g.Molecule(text)
     neg = None
